@@ -128,6 +128,11 @@ def main_check(pid: str, tier: str) -> int:
     proof_broken = (not proof["ok"]) or bool(bad_axioms)
 
     # 2. correspondence stage
+    # when the code the model covers differs from the tree the model was reconciled with, the quick check explores as much as the thorough one
+    changed = C.changed_sources(pid)
+    label_tier = tier
+    if changed and tier == "quick":
+        tier = "thorough"
     total = prop.budgets[tier]
     nshards = min(C.NPROC, max(1, total // 20))
     rows, worker_errors = run_workers(pid, tier, seed, total, nshards)
@@ -216,7 +221,7 @@ def main_check(pid: str, tier: str) -> int:
             distinct[hashlib.sha1(json.dumps(r["case"], sort_keys=True).encode()).hexdigest()] = 1
     samples = [{"case": r["case"], "impl_out": r["res"].get("out")} for r in good[:: max(1, len(good) // 5)][:5]]
     ev = {
-        "property_id": pid, "tier": tier, "seed": seed, "level": "proof",
+        "property_id": pid, "tier": label_tier, "seed": seed, "level": "proof",
         "coverage": {
             "obligations": max(obligations, 1), "discharged": discharged,
             "checker_cmd": f"cd /verif/coq && make && coqc -Q theories Y0 theories/Properties/{pid}.v",
@@ -230,6 +235,7 @@ def main_check(pid: str, tier: str) -> int:
             "known_findings_hit": dict(known_hits), "samples": samples,
             "hashseed_replicas": getattr(prop, "hashseed_replicas", {}).get(tier, 0), "hashseed_differences": len(replica_diffs),
             "exhaustive": bool(getattr(prop, "exhaustive", {}).get(tier)),
+            "source_changed_since_model_reconciled": changed, "budget_tier_used": tier,
             "modelled_not_verified": prop.modelled,
             "explanation": prop.explanation,
         },
@@ -244,7 +250,7 @@ def main_check(pid: str, tier: str) -> int:
 
     for key, n in known_hits.items():
         print(f"KNOWN-FINDING: property={pid} {known[key]['what_fails']} [{key}] (seen {n}x this run)")
-    print(f"{pid} {tier}: obligations={obligations} discharged={discharged} cases={len(rows)} nontrivial={len(distinct)} "
+    print(f"{pid} {label_tier}{' (thorough budget: modelled source changed)' if label_tier != tier else ''}: obligations={obligations} discharged={discharged} cases={len(rows)} nontrivial={len(distinct)} "
           f"mismatches={len(bad_idx)} violations={len(violations)} wall={ev['wall_s']}s")
     if violations:
         seen = set()
